@@ -346,6 +346,11 @@ def dict_cases(rng):
     yield 'dict.deleteAll-keys', '$d.deleteAll(%s)' % seq(rng, '$e.keys()'), v, lambda: {a: b for a, b in d.items() if a not in e}, False
     yield 'dict.items', '$d.items().select($).toList()', v, lambda: [[a, b] for a, b in d.items()], False
     yield 'dict.isDict', 'isDict($d)', v, lambda: True, False
+    # views are sequences of keys / pairs / values: + concatenates them like any other sequences
+    yield 'dict.keys-plus-keys', '($d.keys() + $e.keys()).len()', v, lambda: len(d) + len(e), False
+    yield 'dict.keys-plus-keys-list', '($d.keys() + $e.keys()).orderBy(str($))', v, lambda: sorted(list(d) + list(e), key=str), False
+    yield 'dict.items-plus-items', '($d.items() + $e.items()).len()', v, lambda: len(d) + len(e), False
+    yield 'dict.values-plus-list', '($d.values() + [1]).len()', v, lambda: len(d) + 1, False
     yield 'dict.mergeWith', '$d.mergeWith($e)', v, lambda: ml.m_merge_with(d, e), False
     yield 'dict.mergeWith-list', '$d.mergeWith($e, $1 + $2)', v, lambda: ml.m_merge_with(d, e, lambda a, b: a + b), False
     yield 'dict.mergeWith-item', '$d.mergeWith($e, itemMerger => $1)', v, lambda: ml.m_merge_with(d, e, None, lambda a, b: a), False
@@ -444,6 +449,11 @@ def misc_cases(rng):
     yield 'stop-in-any', '$c.any(stopAt($, %d) > 100)' % k, v, stopper(lambda o: False), False
     yield 'stop-in-toDict', '$c.toDict(stopAt($, %d)).len()' % k, v, stopper(lambda o: len(set(o))), False
     yield 'stop-in-sum', '$c.select(stopAt($, %d)).sum(0)' % k, v, stopper(lambda o: sum(o)), False
+    # an ordering bound to a variable is the same sequence however often it is read, also over a one-shot source
+    yield 'orderBy-read-twice', 'let(o => $c.select($).orderBy($)) -> [$o.toList(), $o.len(), $o.toList(), $o.first(77)]', v, (
+        lambda: [sorted(lst), len(lst), sorted(lst), (sorted(lst)[0] if lst else 77)]), False
+    yield 'orderBy-thenBy-read-twice', 'let(o => $c.where(true).orderBy($ mod 2).thenByDescending($)) -> [$o.len(), $o.toList(), $o.toList()]', v, (
+        lambda: [len(lst), sorted(lst, key=lambda x: (x % 2, -x)), sorted(lst, key=lambda x: (x % 2, -x))]), False
     # a memorized sequence read by two passes at once: each pass sees the whole sequence
     m = rng.randrange(0, 6)
     yield 'memorize-nested-passes', 'let(m => range(%d).memorize()) -> $m.select([$, $m.len()])' % m, v, (
